@@ -90,7 +90,7 @@ def action_type(world, r):
 def make_cell(world, pre, r, S):
     do = r["do"]
     ops = list(r.get("on", [])) or list(S)
-    if do in ("sub.expand", "sub.contract", "resize"):
+    if do in ("sub.expand", "sub.contract", "ps.contract", "resize"):
         ops = [r["sub"]]
     flags = []
     for k in ("sep", "destr", "partial"):
@@ -373,6 +373,7 @@ PROP_OF_ACTION = {
     "env.contract": ["C08"],
     "sub.expand": ["C02", "C08"],
     "sub.contract": ["C08"],
+    "ps.contract": ["C08"],
     "ce.combine": ["C02", "C13"],
     "ce.reorder": ["C02", "C13"],
     "ce.expand": ["C02", "C08"],
@@ -380,6 +381,7 @@ PROP_OF_ACTION = {
     "mk_env": ["C13"],
     "mk_custom": ["C13"],
     "mk_op": ["C15"],
+    "mut_op": ["C15"],
     "config": ["C08"],
     "trace_out": ["C02"],
     "resize": ["C10"],
@@ -401,8 +403,10 @@ def check_step(world, pre, post, r, res):
         # alpha is not trustworthy: invariant violations stand, refinement is not evaluated
         return out
     tol = _tol(pre)
-    if do in ("sub.contract", "env.contract"):
-        tol = TOL_CONTRACT  # an explicit contraction may drop eigenvalues below the library's 1e-6 purity cut
+    if do in ("sub.contract", "env.contract", "ps.contract"):
+        # an explicit contraction may drop eigenvalues below its purity cut (the library's 1e-6, or the
+        # tolerance the caller asked for)
+        tol = max(TOL_CONTRACT, float(r.get("tol") or 0.0))
     if do == "fault":
         _check_fault(world, pre, post, r, res, cell, out, tol)
         return out
@@ -426,12 +430,13 @@ def check_step(world, pre, post, r, res):
         _check_trace_out(world, pre, post, r, res, S, cell, out, tol)
     elif do == "resize":
         _check_resize(world, pre, post, r, res, S, cell, out, tol)
-    elif do in ("sub.contract", "env.contract"):
+    elif do in ("sub.contract", "env.contract", "ps.contract"):
         _check_identity(pre, post, S, ["C08"], "contract-identity", cell, out, tol)
-        _check_contract_level(pre, post, S, cell, out)
+        if do != "ps.contract":
+            _check_contract_level(pre, post, S, cell, out, float(r.get("tol") or 0.0))
     else:
         _check_identity(pre, post, S, props, "structural-identity", cell, out, tol)
-    if do not in ("mk_env", "mk_custom", "mk_op"):
+    if do not in ("mk_env", "mk_custom", "mk_op", "mut_op"):
         left = list(measured_now)
         if do == "measure" and res.status == "ok" and isinstance(res.ret, dict):
             # a projectively measured subsystem leaves its product space, destroyed or not
@@ -462,7 +467,7 @@ def _check_identity(pre, post, S, props, oracle, cell, out, tol, silent_ok=False
     compare_expected(e, live, td, T, props, oracle, cell, out, tol)
 
 
-def _check_contract_level(pre, post, S, cell, out):
+def _check_contract_level(pre, post, S, cell, out, asked=0.0):
     for n in S:
         bp, bq = pre.block_of(n), post.block_of(n)
         if bp is None or bq is None or bq.form == "bad":
@@ -472,13 +477,14 @@ def _check_contract_level(pre, post, S, cell, out):
             rho = bp.rho()
             if rho is None:
                 continue
-            if bq.form in ("vector", "label") and R.purity(rho) < 1 - 1e-5:
+            # `asked`: the purity tolerance the caller passed to contract(), if any
+            if bq.form in ("vector", "label") and R.purity(rho) < 1 - max(1e-5, 1.01 * asked):
                 out.append(
                     Violation(["C08"], "contract-level", "contracted-mixed-state", cell, f"{n}: purity {R.purity(rho):.8f}")
                 )
             if bq.form == "label":
                 dg = np.real(np.diag(rho))
-                if dg.max() < 1 - 1e-6 and not (len(bq.members) == 1 and isinstance(bq.arr, tuple)):
+                if dg.max() < 1 - max(1e-6, asked) and not (len(bq.members) == 1 and isinstance(bq.arr, tuple)):
                     out.append(Violation(["C08"], "contract-level", "label-for-non-basis", cell, n))
 
 
@@ -970,6 +976,23 @@ def _check_fault(world, pre, post, r, res, cell, out, tol):
     dead_post = sorted(n for n, m in post.sub.items() if m["measured"])
     if dead_pre != dead_post:
         out.append(Violation(props, "reject-atomicity", "mutated-on-reject:destroyed", cell, f"{dead_pre} -> {dead_post}"))
+    if rejected:
+        # C20 holds for refused requests too: joining exactly the blocks of several addressed subsystems
+        # before refusing is within the statement (the unchanged tree does it for composite operations
+        # of the wrong kind and for envelope channels), but a request on ONE subsystem enlarges nothing,
+        # and no block without an addressed subsystem takes part in a join
+        owner = {}
+        for i, b in enumerate(pre.blocks):
+            for m in b.members:
+                owner[m] = i
+        addressed = set(r.get("on", []))
+        for b in post.blocks:
+            src = sorted({owner[m] for m in b.members if m in owner})
+            if len(src) > 1:
+                foreign = [i for i in src if not (set(pre.blocks[i].members) & addressed)]
+                if len(addressed) <= 1 or foreign:
+                    out.append(Violation(["C20"], "over-merge", "joined-by-rejected-request", cell, f"{[list(pre.blocks[i].members) for i in src]} -> {list(b.members)} (addressed {sorted(addressed)})"))
+                    break
     if k == "shrink_below_support":
         n = r["on"][0]
         if pre.sub[n]["dims"] != post.sub[n]["dims"]:
